@@ -147,7 +147,9 @@ def run(ctx, rep):
            'VM.globals outlives run(), but every heap object a global points to is owned by the collector created (and dropped) inside run(): '
            'after the line ends the global dangles (latent today only because the sweep frees nothing)', 'src/vm.rs')
     # (globals / constants, per-line code buffer): function values carry an absolute code position; compile_ast moves the buffer out
-    takes = [t for b, t in ca.calls() if callee_name(t).endswith('mem::take') and 'instructions' in str(sym(ca, t['args'][0]))]
+    from rules import tables
+    bb = tables.bytecode_builder(ctx)
+    takes = [t for b, t in bb.calls() if callee_name(t).endswith('mem::take') and 'instructions' in str(sym(bb, t['args'][0]))]
     func_has_pos = True
     rep.ob(not takes, 'R17.4', 'compiler::Compiler::compile_ast', 'function values vs per-line code buffer',
            'function values (in globals and in the retained constant pool) hold absolute positions in the instruction buffer, but compile_ast '
